@@ -1,5 +1,101 @@
 import JF.Driver.Core
+import JF.Model.CellTaggers
+import JF.Model.FactorMaps
+/-
+Component `factor` (property C10): the cell taggers / veto domain over an occupancy state given as
+data, and the factor-file maps.
+
+Wire format (one request line -> one reply line, tokens separated by blanks):
+* tuple of integers  `0,1`            (cell identifier, state identifier, index list)
+* list of tuples     `0,1;2,0`  or `-` for the empty list
+* list of lists      entries separated by `/`, `-` for empty
+
+requests
+  allcells  <n>                                   -> cells `;`
+  nearby    <n> <layers> <cell>                   -> cells `;`   (the stored set, model order)
+  translate <n> <cell> <rel>                      -> cell
+  relative  <n> <cell> <ref>                      -> cell
+  cell <n> <layers> <active | -> <k> <occ>*k <surplus>*   with active = `cell=id`, occ/surplus = `cell=id;id`
+        -> `V:<in-states> B:<in-states> E:<in-states> S:<in-states> D:<cell>key/...> T:<cell=args/...>`
+  file   <nRoots> <nPer> <line>*            line = `0,1:Harmonic`
+        -> `ok <Type:loc:idx=S;S|idx=S>*`  |  `err:<Exception>`
+  yield  <nRoots> <nPer> <Type> <active id> <line>*   -> `ok <in-states>` | `err:<Exception>`
+  tagger <nRoots> <nPer> <Type> <leaf ids> <line>*    -> `ok <in-states>` | `err:<Exception>`
+-/
 namespace JF.Driver
-/-- component `factor` (stub until its model is written) -/
-def factorComp : Comp := Comp.pure fun _ => "unimplemented"
+open JF.CellTaggers JF.FactorMaps
+
+private def tup (s : String) : List Nat :=
+  if s == "" || s == "()" then [] else (s.splitOn ",").map String.toNat!
+private def showTup (t : List Nat) : String := if t.isEmpty then "()" else ",".intercalate (t.map toString)
+private def tups (s : String) : List (List Nat) := if s == "-" then [] else (s.splitOn ";").map tup
+private def showTups (l : List (List Nat)) : String :=
+  if l.isEmpty then "-" else ";".intercalate (l.map showTup)
+private def showLL (l : List (List (List Nat))) : String :=
+  if l.isEmpty then "-" else "/".intercalate (l.map showTups)
+
+private def keyed (s : String) : List Nat × List (List Nat) :=
+  match s.splitOn "=" with
+  | [c, v] => (tup c, tups v)
+  | _ => ([], [])
+
+private def mkOcc (active : String) (occ sur : List String) : Occ :=
+  let tbl := occ.map keyed
+  { occ := fun c => (tbl.lookup c).getD []
+    surplus := sur.map keyed
+    active := if active == "-" then none else
+      match active.splitOn "=" with
+      | [c, a] => some (tup c, tup a)
+      | _ => none }
+
+private def showArgs (l : List (Option (List Nat))) : String :=
+  ";".intercalate (l.map fun | none => "N" | some t => showTup t)
+
+private def cellReply (g : Grid) (s : Occ) : String :=
+  let d := (vetoDomainKeyed g).map fun p => showTup p.1 ++ ">" ++ showTup p.2
+  let t := (vetoTargets g s).map fun p => showTup p.1 ++ "=" ++ showArgs p.2
+  let j := fun (l : List String) => if l.isEmpty then "-" else "/".intercalate l
+  s!"V:{showLL (cellVetoTagger s)} B:{showLL (cellBoundingTagger g s)} E:{showLL (excludedCellsTagger g s)} S:{showLL (surplusCellsTagger s)} D:{j d} T:{j t}"
+
+private def line (s : String) : Line :=
+  match s.splitOn ":" with
+  | [i, t] => ⟨tup i, t⟩
+  | _ => ⟨[], ""⟩
+
+private def showMap (m : IndexMap) : String :=
+  if m.isEmpty then "-" else
+  "|".intercalate (m.map fun p => toString p.1 ++ "=" ++ showTups p.2)
+
+private def showFactors (fs : Factors) : String :=
+  joinSp ("ok" :: fs.map fun p =>
+    let loc := match p.2.isLocal with | none => "N" | some true => "1" | some false => "0"
+    s!"{p.1}:{loc}:{showMap p.2.map}")
+
+private def showRes : Except String (List InState) → String
+  | .error e => "err:" ++ e
+  | .ok l => "ok " ++ showLL l
+
+def factorComp : Comp := Comp.pure fun
+  | ["allcells", n] => showTups (allCells (tup n))
+  | ["nearby", n, l, c] => showTups (nearby ⟨tup n, nat! l⟩ (tup c))
+  | ["translate", n, c, r] => showTup (translate (tup n) (tup c) (tup r))
+  | ["relative", n, c, r] => showTup (relative (tup n) (tup c) (tup r))
+  | "cell" :: n :: l :: active :: k :: rest =>
+      let k := nat! k
+      cellReply ⟨tup n, nat! l⟩ (mkOcc active (rest.take k) (rest.drop k))
+  | "file" :: r :: p :: lines =>
+      match instantiate ⟨nat! r, nat! p⟩ (lines.map line) [] with
+      | .error e => "err:" ++ e
+      | .ok fs => showFactors fs
+  | "yield" :: r :: p :: ty :: act :: lines =>
+      let s : Setting := ⟨nat! r, nat! p⟩
+      match instantiate s (lines.map line) [] with
+      | .error e => "err:" ++ e
+      | .ok fs => showRes (yieldFactor s fs ty (tup act))
+  | "tagger" :: r :: p :: ty :: leaves :: lines =>
+      let s : Setting := ⟨nat! r, nat! p⟩
+      match instantiate s (lines.map line) [] with
+      | .error e => "err:" ++ e
+      | .ok fs => showRes (taggerYield s fs ty (tups leaves))
+  | _ => "bad-op"
 end JF.Driver
